@@ -236,14 +236,14 @@ def run(ctx):
     target = rng.choice([140000, 300000]) if thorough else 75000
     parts = []
     total = 0
-    eol = rng.choice(["\r\n", "\r\n", "\n"])
+    eol = "\r\n"
     while total < target:
       nxt = (total // 4096 + 1) * 4096
-      if 60 < nxt - total < 400 and rng.random() < 0.8:
+      if 60 < nxt - total < 400:
         # a two-line cue whose FIRST text line ends exactly at a 4 KiB multiple (so also at 8, 16, 64 KiB ones): the line
         # end then straddles whatever power-of-two block a reader may read the file in
         head = "%d%s00:00:01,000 --> 00:00:02,000%s" % (len(parts) + 1, eol, eol)
-        fill = nxt - total - len(head) - (1 if eol == "\r\n" else 0) - rng.choice([0, 0, 1])
+        fill = nxt - total - len(head) - 1 - (1 if (nxt // 4096) % 5 == 4 else 0)      # (every fifth one a character earlier)
         if fill > 0:
           text = head + "x" * fill + eol + "second line" + eol + eol
           alone, _fr, _d = S.observe(text, "raw")
